@@ -10,6 +10,17 @@ COMMON_NOTE = ("Trusted base: pyvc engine (AST transform T1-T3 of the real sourc
                "lift to C), A3 (integer powers), A4 (path forking via z3), A5 (numpy shim contracts, listed per run in evidence.trusted_base). ")
 
 CLAIMED = {
+    "C34": dict(
+        category="proof",
+        text=("(1) block construction proved well-formed for ALL integers n > d >= 1 and every area (real loop body cut by an invariant, z3 LIA with div/mod); "
+              "(2) Lagrange property of Area._compute_coefs on symbolic nodes for d <= 5 (6 thorough); (3) whole dispatcher on symbolic strictly increasing "
+              "nodes (n <= 4 quick / 8 thorough, d <= 4, linear and log mode): partition of unity, Kronecker property, reproduction of monomials up to the "
+              "degree, rows of get_interpolation, on every feasible evaluation path; (4) rejections; (5) re-interpolation to a grid of equal length "
+              "reproduces linear functions on every path including the shortcut (one defect repaired by a fix commit)."),
+        note=COMMON_NOTE + "Lemma: a polynomial of degree <= d with d+1 zeros vanishes. Assumed: ln increasing, np.unique sorts/dedups. Preconditions: node spacing > 1e-14 and evaluation points outside the 10-eps window below a node (float tolerance of evaluate_x, not modelled). Whole-dispatcher clauses shape-bounded.",
+        technique="contract-based deductive verification: invariant cut + z3 LIA; symbolic execution with z3 path feasibility + exact normal form",
+        design_ref="DESIGN.md section 2, C34",
+    ),
     "C43": dict(
         category="proof",
         text=("apply_pdf executed with the PDF as an uninterpreted function xf(pid,x,Q2), an enumerated set of missing flavours, a ghost EKO with fully "
